@@ -202,6 +202,21 @@ def path_rules(col, gcode, paths, I):
                 if gcode == 'M206' and attr == 'homeOffset' and letter in 'XYZ' and f.valued(letter) and letter not in used:
                     col.report('C19.R4', 'GcodeHandlers._handle_M206', '%s word ignored' % letter,
                                'M206 carries a %s value that is not applied' % letter)
+        # M206: exact post-state (home offset = word * unit; nothing else moves)
+        if gcode == 'M206':
+            from .pathfacts import CMDKEY
+            from .poly import Poly
+            for axis, letter in (('X_AXIS', 'X'), ('Y_AXIS', 'Y'), ('Z_AXIS', 'Z')):
+                aoid = '%s.position.%s' % (S_OID, axis)
+                for status, want in ((frozenset(['V']), Poly.sym('p:%s' % letter) * Poly.sym(aoid + '.unitMultiplier')),
+                                     (frozenset(['A', 'F']), Poly.sym(aoid + '.homeOffset'))):
+                    if not (f.pstatus(letter) & status):
+                        continue
+                    for v in f.final(aoid, 'homeOffset', {('param', CMDKEY, letter): status}):
+                        if isinstance(v, Num) and v.p != want:
+                            col.report('C19.R4', 'GcodeHandlers._handle_M206', 'M206 %s: home offset becomes %r' % (letter, v.p),
+                                       'expected %r (the word in native units when it carries a value, unchanged otherwise)' % (want,),
+                                       detail={'entry': p.entry, 'decisions': f.decisions()})
         # arc centre words reach the planner in the right slots
         if gcode in ('G2', 'G3'):
             for e in p.st.trace:
